@@ -189,11 +189,16 @@ fn strategy() -> impl Strategy<Value = Case> {
 fn run(ctx: &Ctx) {
     ctx.set_shrink_budget(250);
     ctx.run_sub("files", ctx.tier.pick(600, 10_000), strategy, check);
+    // documents large enough for several object streams (the writer starts a new one every 100 members);
+    // each evaluation costs seconds (10^6-entry xref stream), so minimisation gets a small budget
+    ctx.set_shrink_budget(25);
+    let enc = || prop::option::weighted(0.3, (0u8..4, password(), password()).prop_map(|(strength, user, owner)| Enc { strength, user, owner }));
+    ctx.run_sub("many-objects", ctx.tier.pick(24, 400), || (progdoc::prog_many(), progdoc::cfg_objstm(), enc()).prop_map(|(prog, cfg, enc)| Case { prog, cfg, enc }), check);
 }
 
 fn replay(ctx: &Ctx, sub: &str, case: &Value) -> Result<Outcome, String> {
     match sub.trim_start_matches("replay:") {
-        "files" => ctx.replay_case::<Case, _>(case, check),
+        "files" | "many-objects" => ctx.replay_case::<Case, _>(case, check),
         s => Err(format!("unknown sub-check {s}")),
     }
 }
